@@ -76,7 +76,7 @@ def membership_facts(prog, body, ix):
                         recv_ = describe(prog, body, ct["args"][0])
                         fields |= address_fields_in(recv_, ix)
                         # every element of the collection is tested (no skip / take / last / rev in front of `any`)
-                        if not [c2 for c2 in core.desc_calls(recv_) if core.re.search(r"::(skip|take|skip_while|take_while|step_by|last|first|nth|filter|rev|chain|zip|peekable)$", c2[1])]:
+                        if not [c2 for c2 in core.desc_calls(recv_) if core.re.search(r"::(skip|take|skip_while|take_while|step_by|last|first|nth|filter|rev|zip)$", c2[1])]:
                             fields.add("chain")
         if found:
             out[s] = fields
@@ -112,7 +112,7 @@ def loop_membership(prog, body, ix, mem):
         if tests:
             # every cycle of the loop passes one of the tests
             if core.must_pass(body, [nb], [nb], through_nodes=tests) is None:
-                whole = not [c2 for c2 in core.desc_calls(recv) if core.re.search(r"::(skip|take|skip_while|take_while|step_by|last|first|nth|filter|rev|chain|zip)$", c2[1])]
+                whole = not [c2 for c2 in core.desc_calls(recv) if core.re.search(r"::(skip|take|skip_while|take_while|step_by|last|first|nth|filter|rev|zip)$", c2[1])]
                 for e in some_edges(prog, body, nb, "None"):
                     out[e[0]] = set(fields) | ({"chain"} if whole else set())
     return out
